@@ -481,6 +481,8 @@ def eaGenerateUpdate(toolbox, ngen, halloffame=None, stats=None,
     logbook = tools.Logbook()
     logbook.header = ['gen', 'nevals'] + (stats.fields if stats else [])
 
+    # No generation executed (ngen == 0) means no population was generated
+    population = []
     for gen in range(ngen):
         # Generate a new population
         population = toolbox.generate()
